@@ -2061,6 +2061,158 @@ fn main() {
                         //   acceptor), in process. (1) two posts under a transaction are seen by the listener's application only
                         //   after the commit, in order; (2) a post under a rolled-back transaction is never seen; (3) a post that
                         //   arrives after the discharge, still naming the finished id, is neither delivered nor accepted.
+                        // e2e <max_frame> <link_max_message_size> <session_window> <len0> <count> <step> [settled]:
+                        //   END TO END on the real code of both sides: a client Sender against the crate's own listener
+                        //   (in-memory duplex). The client sends <count> messages with Binary bodies of len0, len0+step, ...
+                        //   bytes (contents derived from the index); the listener's Receiver hands back what it got.
+                        //   Every message must arrive exactly once, byte for byte, in order.
+                        "e2e" => {
+                            use fe2o3_amqp::acceptor::{ConnectionAcceptor, LinkAcceptor, LinkEndpoint, SessionAcceptor};
+                            use fe2o3_amqp_types::primitives::Binary;
+                            let _ = (client_io, peer_io);
+                            let g = |i: usize, d: u64| arg.get(i).copied().unwrap_or(d);
+                            let (max_frame, mms, window, len0, count, step, settled) = (g(0, 512) as u32, g(1, 0), g(2, 2048) as u32, g(3, 10) as usize, g(4, 3) as usize, g(5, 1) as usize, g(6, 1) == 1);
+                            let body = move |i: usize| -> Vec<u8> { (0..len0 + i * step).map(|j| ((i * 31 + j * 7 + (j >> 8)) & 0xff) as u8).collect() };
+                            let (client_io, server_io) = tokio::io::duplex(256);
+                            let (seen_tx, mut seen) = tokio::sync::mpsc::unbounded_channel::<Result<Vec<u8>, String>>();
+                            let listener = tokio::spawn(async move {
+                                let acceptor = ConnectionAcceptor::builder().container_id("listener").max_frame_size(max_frame).build();
+                                let mut connection = match acceptor.accept(server_io).await {
+                                    Ok(c) => c,
+                                    Err(_) => return,
+                                };
+                                let session_acceptor = SessionAcceptor::builder().incoming_window(window).build();
+                                let mut session = match session_acceptor.accept(&mut connection).await {
+                                    Ok(s) => s,
+                                    Err(_) => return,
+                                };
+                                let mut lb = LinkAcceptor::builder();
+                                if mms > 0 {
+                                    lb = lb.max_message_size(mms);
+                                }
+                                let link_acceptor = lb.build();
+                                let mut receiver = match link_acceptor.accept(&mut session).await {
+                                    Ok(LinkEndpoint::Receiver(r)) => r,
+                                    _ => return,
+                                };
+                                loop {
+                                    match receiver.recv::<Binary>().await {
+                                        Ok(delivery) => {
+                                            let _ = seen_tx.send(Ok(delivery.body().to_vec()));
+                                            if receiver.accept(&delivery).await.is_err() {
+                                                break;
+                                            }
+                                        }
+                                        Err(e) => {
+                                            let _ = seen_tx.send(Err(format!("{:?}", e).chars().take(80).collect()));
+                                            break;
+                                        }
+                                    }
+                                }
+                                drop(seen_tx);
+                                tokio::time::sleep(Duration::from_secs(2)).await;
+                                drop(receiver);
+                                drop(session);
+                                drop(connection);
+                            });
+                            let res = tokio::time::timeout(Duration::from_secs(20), async {
+                                let mut connection = fe2o3_amqp::Connection::builder().container_id("client").max_frame_size(max_frame).open_with_stream(client_io).await.map_err(|_| "open_failed")?;
+                                let mut session = fe2o3_amqp::Session::begin(&mut connection).await.map_err(|_| "begin_failed")?;
+                                let mut sender = fe2o3_amqp::Sender::attach(&mut session, "sender", "q1").await.map_err(|_| "sender_failed")?;
+                                let mut send_errors = 0usize;
+                                for i in 0..count {
+                                    let m = fe2o3_amqp::Sendable::builder().message(Binary::from(body(i))).settled(settled).build();
+                                    match tokio::time::timeout(Duration::from_secs(4), sender.send(m)).await {
+                                        Ok(Ok(_)) => {}
+                                        _ => send_errors += 1,
+                                    }
+                                }
+                                let mut got: Vec<Result<Vec<u8>, String>> = Vec::new();
+                                while got.len() < count {
+                                    match tokio::time::timeout(Duration::from_millis(1500), seen.recv()).await {
+                                        Ok(Some(x)) => {
+                                            let stop = x.is_err();
+                                            got.push(x);
+                                            if stop {
+                                                break;
+                                            }
+                                        }
+                                        _ => break,
+                                    }
+                                }
+                                // nothing more may arrive
+                                let extra = matches!(tokio::time::timeout(Duration::from_millis(200), seen.recv()).await, Ok(Some(_)));
+                                let _ = tokio::time::timeout(Duration::from_secs(1), sender.close()).await;
+                                let _ = tokio::time::timeout(Duration::from_secs(1), session.end()).await;
+                                let _ = tokio::time::timeout(Duration::from_secs(1), connection.close()).await;
+                                Ok::<_, &'static str>((got, extra, send_errors))
+                            })
+                            .await
+                            .unwrap_or(Err("hang"));
+                            listener.abort();
+                            match res {
+                                Ok((got, extra, send_errors)) => {
+                                    let mut first_bad: i64 = -1;
+                                    for i in 0..count {
+                                        let ok = matches!(got.get(i), Some(Ok(b)) if *b == body(i));
+                                        if !ok {
+                                            first_bad = i as i64;
+                                            break;
+                                        }
+                                    }
+                                    let err = got.iter().find_map(|x| x.as_ref().err().cloned()).unwrap_or_default();
+                                    format!("{{\"client\":\"ok\",\"intact\":{},\"received\":{},\"first_bad\":{},\"extra\":{},\"send_errors\":{},\"recv_error\":{:?}}}", first_bad < 0 && !extra && got.len() == count, got.len(), first_bad, extra, send_errors, err)
+                                }
+                                Err(e) => format!("{{\"client\":\"{}\",\"intact\":false,\"received\":0,\"first_bad\":0,\"extra\":false,\"send_errors\":0,\"recv_error\":\"\"}}", e),
+                            }
+                        }
+                        // link_split <pieces>: the peer's attach carries max-message-size 16; the client sends ONE message
+                        //   whose payload is cut into <pieces> transfers by the link. All frames of the delivery must carry
+                        //   the first frame's delivery-id or none, `more` on all but the last, and add up to the payload.
+                        "link_split" => {
+                            use fe2o3_amqp_types::performatives::Flow;
+                            let pieces = arg.first().copied().unwrap_or(2).max(2) as usize;
+                            let cfg = sp::PeerCfg { credit: None, ..Default::default() };
+                            let peer = tokio::spawn(sp::run(peer_io, sp::PeerCfg { credit: None, ..Default::default() }, move |f: &Frame, _log: &[String]| {
+                                let mut act = sp::Act::default();
+                                if let FrameBody::Attach(a) = &f.body {
+                                    let mut answers = sp::default_answers(f, &cfg).0;
+                                    for fr in answers.iter_mut() {
+                                        if let FrameBody::Attach(at) = &mut fr.body {
+                                            at.max_message_size = Some(16);
+                                        }
+                                    }
+                                    act.replies = answers;
+                                    act.replies.push(Frame::new(f.channel, FrameBody::Flow(Flow { next_incoming_id: Some(0), incoming_window: 2048, next_outgoing_id: 0, outgoing_window: 2048, handle: Some(a.handle.clone()), delivery_count: Some(0), link_credit: Some(100), available: None, drain: false, echo: false, properties: None })));
+                                    act.handled = true;
+                                }
+                                act
+                            }));
+                            // payload = 00 53 77 a1 <len> <text>: text of 16*(pieces-1)+8-5 bytes gives a payload of 16*(pieces-1)+8
+                            let total = 16 * (pieces - 1) + 8;
+                            let client = tokio::time::timeout(Duration::from_secs(8), async {
+                                let mut conn = fe2o3_amqp::Connection::builder().container_id("client").open_with_stream(client_io).await.map_err(|_| "open_failed")?;
+                                let mut session = fe2o3_amqp::Session::begin(&mut conn).await.map_err(|_| "begin_failed")?;
+                                let mut sender = fe2o3_amqp::Sender::attach(&mut session, "s-1", "q1").await.map_err(|_| "attach_failed")?;
+                                let m = fe2o3_amqp::Sendable::builder().message("x".repeat(total - 5)).settled(true).build();
+                                let _ = tokio::time::timeout(Duration::from_secs(2), sender.send(m)).await.map_err(|_| "send_timeout")?;
+                                tokio::time::sleep(Duration::from_millis(300)).await;
+                                let _ = tokio::time::timeout(Duration::from_secs(1), sender.close()).await;
+                                let _ = tokio::time::timeout(Duration::from_secs(1), session.end()).await;
+                                let _ = tokio::time::timeout(Duration::from_secs(1), conn.close()).await;
+                                Ok::<_, &'static str>("ok")
+                            })
+                            .await
+                            .unwrap_or(Err("hang"));
+                            let log = tokio::time::timeout(Duration::from_secs(2), peer).await.ok().and_then(|r| r.ok()).unwrap_or_default();
+                            let xs: Vec<&String> = log.iter().filter(|l| l.starts_with("transfer:")).collect();
+                            let field = |l: &str, k: &str| -> String { l.split(':').find_map(|t| t.strip_prefix(k).map(|x| x.to_string())).unwrap_or_default() };
+                            let first_id = xs.first().map(|l| field(l, "id")).unwrap_or_default();
+                            let one_id = first_id.starts_with("Some") && xs.iter().skip(1).all(|l| { let i = field(l, "id"); i == "None" || i == first_id });
+                            let more_ok = !xs.is_empty() && xs.iter().enumerate().all(|(k, l)| field(l, "more") == if k + 1 == xs.len() { "false" } else { "true" });
+                            let sum: usize = xs.iter().map(|l| field(l, "len").parse::<usize>().unwrap_or(0)).sum();
+                            format!("{{\"client\":\"{}\",\"frames\":{},\"one_delivery_id\":{},\"received_intact\":{},\"log\":{}}}", client.unwrap_or_else(|e| e), xs.len(), one_id, more_ok && sum == total && xs.len() == pieces, sp::json_list(&log))
+                        }
                         "txn_late_post" => {
                             use fe2o3_amqp::acceptor::{ConnectionAcceptor, LinkAcceptor, LinkEndpoint, SessionAcceptor};
                             use fe2o3_amqp::transaction::{coordinator::ControlLinkAcceptor, Controller, Transaction, TransactionDischarge, TransactionPosting};
